@@ -46,12 +46,12 @@ theorem escape_busy {s : St} (h : SInv s) (hp : Live s) (cfg : Cfg) (e : GErr) (
     Busy (escape cfg s e).1 := by
   rw [escape_eq]
   simp only [he, if_true]
-  have hw := winv_upd h.toWInv hp false .idle s.prep s.coordBroker s.hbInFlight s.now
+  have hw := winv_upd h.toWInv hp false .idle s.prep s.coordBroker s.now
   exact (busy'_of_err (rejoinAfterError_res hw cfg e (fun _ => rfl) h.hb_has)).busy
 
 theorem reqErr_busy {s : St} (h : SInv s) (hp : Live s) (cfg : Cfg) (e : GErr) :
     Busy { (rejoinAfterError cfg { s with jpc := .idle } e).1 with rejoinD := false } := by
-  have hw := winv_upd h.toWInv hp s.rejoinD .idle s.prep s.coordBroker s.hbInFlight s.now
+  have hw := winv_upd h.toWInv hp s.rejoinD .idle s.prep s.coordBroker s.now
   have b := busy'_of_err (rejoinAfterError_res hw cfg e (fun _ => rfl) h.hb_has)
   exact fun a b' c _ => b a b' c
 
@@ -216,8 +216,8 @@ theorem step_busy {s : St} (h : SInv s) (hb : Busy s) (cfg : Cfg) (e : Ev) (hne 
           simp only []
           split
           · simp only [andThen_fst]
-            have w0 := winv_upd h.toWInv hp s.rejoinD s.jpc s.prep s.coordBroker false s.now
-            have w1 := hbStop_winv w0
+            have w0 := winv_hbInFlight h.toWInv false (fun x => by cases x)
+            have w1 := hbStop_winv w0 rfl
             exact (busy'_of_err (rejoinAfterError_res w1 cfg e hri (by simp))).busy
           · exact fun a b c d => hb a b c d
     | leaveDone r =>
